@@ -217,6 +217,9 @@ def c13(ctx):
     checkers = [("class", None, F.FormatChecker())] + [("draft", t, impl.DRAFT_FC[t]) for t in DRAFT_TAGS]
     orc = oracle_mod.Oracle(fmt=lambda name, inst: std_fmt_answer(ALIASES.get(name, name), inst))
     grammar = {"ipv4": g_ipv4, "ipv6": g_ipv6, "email": lambda s: "@" in s}
+    lenient = F.FormatChecker(formats=())
+    for nm in sorted(set(F.FormatChecker.checkers) | set(SEEDS) | set(ALIASES)):
+        lenient.checks(nm)(lambda x: True)
     for _ in range(ctx.n(4000)):
         spec, tag, fc = ctx.r.choice(checkers)
         name = ctx.r.choice(sorted(fc.checkers))
@@ -226,6 +229,9 @@ def c13(ctx):
             s = mutate(ctx.r, s)
         inst = s if ctx.r.random() < 0.93 else ctx.g.value(1)
         case = {"fc": spec, "cls": tag, "name": name, "inst": inst}
+        # an application's private, lenient checker for the same format name is used first: the
+        # built-in checkers' answers do not depend on it
+        lenient.conforms(inst, name)
         conf, chk = check_impl(fc, inst, name)
         res.note(hash((spec, tag, name, codec.canon(inst))), isinstance(inst, str), case)
         res.distribution["%s:%s" % (base, chk[0])] += 1
@@ -371,6 +377,120 @@ def c12(ctx):
         d = corr.diff({"errs": m.get("errs"), "stop": m.get("stop")}, i)
         if d:
             res.disagree("VAL", case, m, i, d)
+
+
+def _typed(pred):
+    return pred, (lambda inst: bool(pred(inst)))
+
+
+# functions that tell apart what Python's hash and `==` identify (1 / True / 1.0, 0 / False / 0.0)
+TYPED_MENU = {
+    "ints-not-bools": _typed(lambda x: type(x) is int),
+    "true-only": _typed(lambda x: x is True),
+    "floats-only": _typed(lambda x: type(x) is float),
+    "not-false": _typed(lambda x: x is not False),
+    "strings-only": _typed(lambda x: isinstance(x, str)),
+}
+WRAPPERS = [
+    ("plain", lambda s: s, lambda i: i),
+    ("ref", lambda s: {"$ref": "#/definitions/f", "definitions": {"f": s}}, lambda i: i),
+    ("ref-chain", lambda s: {"$ref": "#/definitions/g", "definitions": {"g": {"$ref": "#/definitions/f"}, "f": s}}, lambda i: i),
+    ("properties", lambda s: {"properties": {"a": s}}, lambda i: {"a": i}),
+    ("items", lambda s: {"items": s}, lambda i: [i]),
+    ("ref-in-items", lambda s: {"items": {"$ref": "#/definitions/f"}, "definitions": {"f": s}}, lambda i: [i, i]),
+    ("additionalProperties", lambda s: {"additionalProperties": s}, lambda i: {"zz": i}),
+]
+WRAPPERS_SINCE4 = [
+    ("allOf", lambda s: {"allOf": [s]}, lambda i: i),
+    ("anyOf", lambda s: {"anyOf": [s, s]}, lambda i: i),
+    ("not", lambda s: {"not": s}, lambda i: i),
+    ("oneOf-ref", lambda s: {"oneOf": [{"$ref": "#/definitions/f"}], "definitions": {"f": s}}, lambda i: i),
+]
+TWINS = [1, True, 1.0, 0, False, 0.0, "1", None, 2, 2.0, [1], [True], {"a": 1}, {"a": True}]
+
+
+def c12_histories(ctx):
+    """(a) ONE checker object and ONE validator asked about instances that Python's hash and `==`
+    identify, in random order, and a format re-registered on a checker already in use: every answer
+    follows the function registered NOW; (b) the format keyword behind `$ref` and under every
+    applicator: an exception the function raises without listing it reaches the caller unchanged —
+    same class — from iter_errors, is_valid and validate."""
+    res = ctx.res
+    r = ctx.r
+    # (a)
+    for _ in range(ctx.n(120)):
+        tag = r.choice(DRAFT_TAGS)
+        cls = impl.DRAFTS[tag]
+        k1, k2 = r.sample(sorted(TYPED_MENU), 2)
+        fc = F.FormatChecker(formats=())
+        fc.checks("typed")(TYPED_MENU[k1][0])
+        v = cls({"format": "typed"}, format_checker=fc)
+        seq = [r.choice(TWINS) for _k in range(r.randrange(4, 10))]
+        case = {"cls": tag, "functions": [k1, k2], "seq": seq}
+        res.note(hash(codec.canon(["c12hist", tag, k1, k2, seq])), True, case)
+        cur = k1
+        for n, x in enumerate(seq):
+            if n == len(seq) // 2:
+                fc.checks("typed")(TYPED_MENU[k2][0])       # re-registered on the used checker
+                cur = k2
+            want = bool(TYPED_MENU[cur][0](x))
+            how = r.choice(["conforms", "is_valid", "iter_errors", "check"])
+            if how == "conforms":
+                got = fc.conforms(x, "typed")
+            elif how == "check":
+                try:
+                    fc.check(x, "typed")
+                    got = True
+                except E.FormatError:
+                    got = False
+            elif how == "is_valid":
+                got = v.is_valid(x)
+            else:
+                got = not list(v.iter_errors(x))
+            if got != want:
+                res.fail("format-vs-function:history:" + how,
+                         "%s(%r) after %r says %r, the registered function (%s) says %r" % (how, x, seq[:n], got, cur, want), dict(case, at=n))
+                break
+    # (b)
+    kinds = {"TypeError": TypeError, "AttributeError": AttributeError, "KeyError": KeyError, "ValueError": ValueError,
+             "ZeroDivisionError": ZeroDivisionError, "RuntimeError": RuntimeError, "LookupError": LookupError, "UnlistedError": UnlistedError}
+    for _ in range(ctx.n(300)):
+        tag = r.choice(DRAFT_TAGS)
+        cls = impl.DRAFTS[tag]
+        wname, wrap, winst = r.choice(WRAPPERS + (WRAPPERS_SINCE4 if tag != "d3" else []))
+        kind = r.choice(sorted(kinds))
+        listed = r.choice([(), ListedError, (ListedError, IndexError)])
+        exc_cls = kinds[kind]
+
+        def func(x, _c=exc_cls):
+            raise _c("scenario")
+        fc = F.FormatChecker(formats=())
+        fc.checks("boom", raises=listed)(func)
+        inst0 = r.choice(["s", 12, None, [1], {"k": 1}])
+        schema, inst = wrap({"format": "boom"}), winst(inst0)
+        case = {"cls": tag, "wrapper": wname, "raises": kind, "listed": impl_raises(listed), "schema": schema, "inst": inst}
+        res.note(hash(codec.canon(["c12wrap", tag, wname, kind, inst])), True, case)
+        for how in ("iter_errors", "is_valid", "validate"):
+            v = cls(schema, format_checker=fc)
+            try:
+                if how == "iter_errors":
+                    list(v.iter_errors(inst))
+                elif how == "is_valid":
+                    v.is_valid(inst)
+                else:
+                    v.validate(inst)
+                got = "returned"
+            except Exception as exc:        # noqa: BLE001
+                got = type(exc).__name__
+            if got != exc_cls.__name__:
+                res.fail("unlisted-exception-swallowed:%s" % wname,
+                         "the function raises the unlisted %s; %s under %s gave %s" % (exc_cls.__name__, how, wname, got), dict(case, how=how))
+                break
+
+
+def c12_all(ctx):
+    c12_histories(ctx)
+    c12(ctx)
 
 
 def impl_raises(raises):
